@@ -404,6 +404,43 @@ def judge_views(rec, rnd):
             break
 
 
+def loader_rows_probe(rec, tmp):
+    """Supplemental rows as the real loader builds them: a rule that reads a column those rows do not have - by attribute or by subscript - cannot be
+    evaluated and is skipped; the outcome is what the file without that rule gives."""
+    from tally.config_loader import load_config, load_supplemental_sources
+    from tally.merchant_engine import parse_merchants
+    root = os.path.join(tmp, 'loaderrows')
+    shutil.rmtree(root, ignore_errors=True)
+    os.makedirs(os.path.join(root, 'config'))
+    os.makedirs(os.path.join(root, 'data'))
+    O.write(os.path.join(root, 'data', 'orders.csv'), 'Date,Amount,Item\n2025-01-04,20.00,Lamp\n2025-02-11,99.00\n')
+    O.write(os.path.join(root, 'data', 'card.csv'), 'Date,Description,Amount\n2025-01-05,AMAZON MKTP,20.00\n')
+    O.write(os.path.join(root, 'config', 'settings.yaml'), 'year: 2025\ndata_sources:\n  - name: Card\n    file: data/card.csv\n    format: "{date:%Y-%m-%d},{description},{amount}"\n'
+            '  - name: Orders\n    file: data/orders.csv\n    supplemental: true\n    format: "{date:%Y-%m-%d},{amount},{description}"\n')
+    cfgd = os.path.join(root, 'config')
+    base = '[Amazon]\nmatch: contains("AMAZON")\ncategory: Shopping\nsubcategory: Online\n'
+    txn = {'description': 'AMAZON MKTP', 'amount': 20.0, 'date': datetime(2025, 1, 5).date(), 'field': None, 'source': 'Card'}
+    try:
+        for bad in ('any(r["gift"] == "" for r in orders)', 'any(r.gift == "" for r in orders)', 'len([r for r in orders if r["wrap"] != "x"]) > 0', 'orders[0]["note"] == ""',
+                    'any(r["description"] == "" for r in orders) and false or orders[1]["memo"] == ""'):
+            text = '[Gift]\nmatch: contains("AMAZON") and %s\ncategory: Gifts\nsubcategory: Online\ntags: gift\n\n' % bad + base
+            outs = []
+            for t_ in (text, base):
+                loaded = load_supplemental_sources(load_config(cfgd), cfgd)
+                r = parse_merchants(t_).match(copy.deepcopy(txn), data_sources=loaded)
+                outs.append((r.merchant, r.category, r.subcategory, sorted(r.tags)))
+            rec.case()
+            rec.count('loader_rows_unknown_column_checks')
+            if outs[0] != outs[1]:
+                rec.violation('failing-element-changes-outcome:unknown-column-of-loader-built-rows', f'rule reading a column the supplemental rows do not have ({bad}) over the rows '
+                              f'load_supplemental_sources builds: {outs[0]}, without that rule {outs[1]}', {'kind': 'loader-rows'})
+                break
+    except Exception as e:
+        rec.unsure('loader rows probe failed: %s: %s' % (type(e).__name__, e))
+    finally:
+        shutil.rmtree(root, ignore_errors=True)
+
+
 def cli_run(rec, rnd, tmp, k):
     """`tally up` on a budget whose rules and views carry poisons: exit 0, all rows of all sources counted."""
     b = os.path.join(tmp, 'budget%d' % k)
@@ -424,7 +461,13 @@ def cli_run(rec, rnd, tmp, k):
             'field: f = %s\ntags: a, {%s}\n\n[Uber]\nmatch: contains("UBER") or (%s)\ncategory: Food\n' % ((poison,) * 7))
     # (the variable that cannot be evaluated may be named like a primitive - cv, total, months - which it then shadows, as nothing)
     gname = rnd.choice(['zzg', 'zzg', 'cv', 'total', 'months'])
-    O.write(os.path.join(b, 'config', 'views.rules'), '%s = %s\n[Bad View]\nfilter: %s\n\n[All]\nfilter: total > 0\n\n[Everything]\nfilter: true\n' % (gname, vp, vp))
+    only_bad = rnd.random() < .5
+    if only_bad:
+        # every view of the file is one whose filter cannot be evaluated: no view has a member, the reports are written all the same
+        O.write(os.path.join(b, 'config', 'views.rules'), '[Bad View]\nfilter: %s\n\n[Typo]\nfilter: monthly_avrage > 10\n' % vp)
+        rec.count('cli_budgets_whose_every_view_is_unevaluable')
+    else:
+        O.write(os.path.join(b, 'config', 'views.rules'), '%s = %s\n[Bad View]\nfilter: %s\n\n[All]\nfilter: total > 0\n\n[Everything]\nfilter: true\n' % (gname, vp, vp))
     O.write(os.path.join(b, 'config', 'settings.yaml'),
             'year: 2025\nmerchants_file: config/merchants.rules\nviews_file: config/views.rules\ndata_sources:\n' +
             ''.join('  - name: %s\n    file: data/%s.csv\n    format: "{date:%%Y-%%m-%%d},{description},{amount}"\n' % (n.upper(), n) for n in ('a', 'b')))
@@ -452,6 +495,13 @@ def cli_run(rec, rnd, tmp, k):
         if 'A: 4 transactions' not in p.stdout or 'B: 4 transactions' not in p.stdout:
             rec.violation('tally-up-loses-source', f'poison {poison!r}: per-source counts missing/wrong: {p.stdout[:400]!r}', case)
             return
+    # the HTML report (default run, progress and summary printed on the way): written
+    p = subprocess.run([core.PY, '-m', 'tally', 'up', os.path.join(b, 'config')], cwd=b, env=env, capture_output=True, text=True, stdin=subprocess.DEVNULL, timeout=120)
+    rec.count('cli_runs')
+    if p.returncode != 0 or not os.path.exists(os.path.join(b, 'output', 'spending_summary.html')):
+        rec.violation('tally-up-aborts:html', f'default run: exit {p.returncode}, report written: {os.path.exists(os.path.join(b, "output", "spending_summary.html"))}; rule poison '
+                      f'{poison!r}, view poison {vp!r}, every view unevaluable: {only_bad}: {(p.stderr or p.stdout)[-300:]}', case)
+        return
     # the per-merchant report of `tally explain` is a report too: it is not lost to the view variable that cannot be evaluated
     for fmt in ('json', 'text', 'markdown'):
         p = subprocess.run([core.PY, '-m', 'tally', 'explain', 'Netflix', os.path.join(b, 'config'), '--format', fmt, '-v'], cwd=b, env=env,
@@ -490,6 +540,8 @@ def run(rec, shard, nshards, t):
                 rec.sample({'class': cls, 'poison': poison, 'position': pos})
         for k in range(max(1, (8 if t == 'quick' else 160) // nshards)):
             cli_run(rec, rnd, tmp, k)
+        if shard == 0:
+            loader_rows_probe(rec, tmp)
     finally:
         shutil.rmtree(tmp, ignore_errors=True)
 
@@ -499,6 +551,9 @@ def replay(rec, case):
     rnd = core.rng_for('C08', 'replay')
     tmp = tempfile.mkdtemp(prefix='vt-c08-')
     try:
+        if case['kind'] == 'loader-rows':
+            loader_rows_probe(rec, tmp)
+            return
         if case['kind'] == 'poison':
             rf = R.RuleFile.from_json(case['rf'])
             txns = [O.untxn(x) for x in case['txns']] or world.pool(rnd, 10)
